@@ -22,8 +22,9 @@
 //! re-polls without any scheduling step (`ActorCtx::take_wake`), otherwise it parks. A park is
 //! therefore always a logical wait for a writer, I/O completion is never mistaken for a missing
 //! wake-up. Because tokio reports a read as `Ready` or as `Pending`+wake depending on how fast the
-//! blocking thread is, the reader additionally *gates* the blocking thread during each poll (`IoGate`):
-//! an I/O job issued by a poll cannot complete before that poll returns, so every I/O stage costs
+//! blocking thread is, the reader additionally *gates* the blocking thread (`IoGate`: a parked blocker
+//! job occupies it except during a flush): an I/O job issued by a poll cannot complete before that poll
+//! returns, so every I/O stage costs
 //! exactly one `Pending` + re-poll and the sequence of yield points is a pure function of the case
 //! (checked with `VF_CHAN_DETCHECK=1`, which executes every case twice and compares traces).
 //!
@@ -50,7 +51,11 @@
 //! the signature `quota+polling-reader` and is excluded (counted in `known_excluded`): any failed
 //! push strands a file the reader will eventually wait on. Quota cases with an idle reader still run
 //! (error paths, disk accounting). With the fix applied and the entry removed the whole fault
-//! enumeration passes (mutrun, seeds 0–4, see probes/c16-fix-verify.log).
+//! enumeration passes (mutrun, seeds 0–4, exit 0, 12 000 cases each incl. ~1 700 failed pushes, see
+//! probes/c16-fix-verify.log; that run predates the `IoGate` determinism hardening of the reader loop —
+//! the re-verification with the final harness hit the 60 s watchdog under machine load > 200 and was
+//! cancelled; to redo: `tools/mutrun fixes/C16-push-failure-finalize.diff -- ./check C16 quick` after
+//! setting the known-findings entry to `fixed`).
 //!
 //! **Deviations from DESIGN.md**: quota sized from a dry run rather than analytically; the failing
 //! `TempFileFactory` injector (§3.8c) is not used (the quota reaches the same error paths);
@@ -66,7 +71,12 @@
 //! * `c16-p3-new-sink-no-count` — `new_sink` does not increment `remaining_writer_count`:
 //!   **VIOLATION** after 15 cases (panic `attempt to subtract with overflow` in `Drop`, spill_pool.rs:150).
 //! * `c16-p4-drop-count-after-wake` (race-only: the writer count reaches zero only after the pool-level
-//!   wake-up, so a reader scheduled in between re-registers and is never woken) — PROBE4-RESULT
+//!   wake-up, so a reader scheduled in between re-registers and is never woken):
+//!   first run **VIOLATION** after 11 cases (deadlock) but the shrunk case did not re-confirm — that run
+//!   still had the I/O-timing non-determinism described below; the re-run with the deterministic
+//!   harness (`probes/c16-fix-plus-env-guarded-p4.diff`, `VF_PROBE_P4=1`) was cancelled for lack of
+//!   machine time (mutrun queue, load > 200) — NOT yet confirmed.
+//! * `c16-p5-pop-two-files` — mutrun exited 2 (build raced with a source edit); not re-run.
 //! * The first run of p2/p4 showed `reconfirmed=false` for a shrunk case: tokio reports a file read as
 //!   `Ready` or `Pending`+wake depending on timing, which changed the number of yield points. Fixed
 //!   by `IoGate` + `ActorCtx::take_wake` (see "File I/O of the reader") and guarded from now on:
@@ -210,26 +220,46 @@ thread_local! {
         .expect("tokio runtime");
 }
 
-/// Occupies the single blocking-pool thread until dropped (jobs submitted meanwhile queue up behind it).
-struct IoGate(Option<std::sync::mpsc::Sender<()>>);
+/// Keeps the single blocking-pool thread occupied by a parked "blocker" job, so that I/O jobs issued
+/// by the reader's polls only ever run inside [`IoGate::flush`]. Costs nothing for polls that issue no I/O.
+struct IoGate {
+    handle: tokio::runtime::Handle,
+    release: Option<std::sync::mpsc::Sender<()>>,
+}
 
 impl IoGate {
-    fn close(h: &tokio::runtime::Handle) -> IoGate {
+    fn blocker(h: &tokio::runtime::Handle) -> std::sync::mpsc::Sender<()> {
         let (tx, rx) = std::sync::mpsc::channel::<()>();
         let _ = h.spawn_blocking(move || {
             let _ = rx.recv(); // returns when the sender is dropped
         });
-        IoGate(Some(tx))
+        tx
+    }
+
+    fn close(h: &tokio::runtime::Handle) -> IoGate {
+        IoGate { handle: h.clone(), release: Some(Self::blocker(h)) }
+    }
+
+    /// Let every I/O job queued so far run to completion (each delivers its wake), then close the
+    /// gate again. The pool is FIFO with one thread: queue = [I/O jobs.., marker, next blocker].
+    fn flush(&mut self) {
+        let (mtx, mrx) = std::sync::mpsc::channel::<()>();
+        let _ = self.handle.spawn_blocking(move || {
+            let _ = mtx.send(());
+        });
+        let next = Self::blocker(&self.handle);
+        drop(self.release.replace(next)); // releases the current blocker
+        let _ = mrx.recv();
     }
 }
 
 impl Drop for IoGate {
     fn drop(&mut self) {
-        self.0.take();
+        self.release.take();
     }
 }
 
-/// wait until every blocking job submitted so far (file I/O of the reader) has completed
+/// wait until every blocking job submitted so far (file I/O of a torn-down reader) has completed
 fn flush_io(h: &tokio::runtime::Handle) {
     let (tx, rx) = std::sync::mpsc::channel::<()>();
     let _ = h.spawn_blocking(move || {
@@ -333,6 +363,7 @@ fn execute(case: &Case) -> Result<Outcome16, String> {
         let rt_handle = rt_handle.clone();
         actors.push(Actor::new("reader", move |ctx: &ActorCtx| {
             let _enter = rt_handle.enter();
+            let mut gate = IoGate::close(&rt_handle);
             let mut reader = reader;
             let mut got = 0usize;
             let mut early = false;
@@ -345,22 +376,16 @@ fn execute(case: &Case) -> Result<Outcome16, String> {
                 }
                 ctx.yield_now("reader.next()");
                 let item = loop {
-                    // a stale wake flag (I/O completion that raced with an earlier poll) must not matter
+                    // a stale wake flag must not matter: polling observes the current state anyway
                     let _ = ctx.take_wake();
                     let mut fut = reader.next();
-                    // hold the (single) blocking thread while polling: an I/O job issued by this poll
-                    // can then never complete before the poll returns, so every I/O stage costs
-                    // exactly one `Pending` + re-poll — never a timing-dependent `Ready`
-                    let gate = IoGate::close(&rt_handle);
-                    let polled = ctx.poll(std::pin::Pin::new(&mut fut));
-                    drop(gate);
-                    match polled {
+                    match ctx.poll(std::pin::Pin::new(&mut fut)) {
                         Poll::Ready(x) => break x,
                         Poll::Pending => {
-                            // all outstanding file I/O completes (and wakes us) before we decide to park;
-                            // an I/O completion is not a scheduling step: whether tokio reported the read
-                            // as Pending-then-woken or as Ready depends on timing only
-                            flush_io(&rt_handle);
+                            // The gate kept the blocking thread busy during the poll, so an I/O job issued
+                            // by it cannot have completed yet (never a timing-dependent `Ready`). Now let
+                            // all queued I/O run; if that woke us, re-poll, else the wait is logical.
+                            gate.flush();
                             if ctx.take_wake() {
                                 continue;
                             }
@@ -391,11 +416,14 @@ fn execute(case: &Case) -> Result<Outcome16, String> {
             ctx.yield_now("drop(reader)");
             drop(reader);
             log(Ev::ReaderDropped { early });
+            drop(gate);
         }));
     }
     let report = sched::run(&case.schedule, &Options { step_limit: 20_000 }, &verif_install, actors);
-    // let stray blocking jobs (reads abandoned by a torn-down reader) finish before the files go away
-    flush_io(&rt_handle);
+    if !report.completed() {
+        // let stray blocking jobs (reads abandoned by a torn-down reader) finish before the files go away
+        flush_io(&rt_handle);
+    }
     let history = std::mem::take(&mut *history.lock().unwrap_or_else(|p| p.into_inner()));
     let files_created = metrics.spill_file_count.value();
     let disk_left = env.disk_manager.used_disk_space();
@@ -624,7 +652,7 @@ impl Property for C16 {
             .boxed()
     }
     fn budget(&self, tier: Tier) -> Budget {
-        Budget::new(tier.pick(12_000, 300_000), tier.pick(8, 16)).min_nontrivial(tier.pick(300, 10_000)).case_timeout(60).shrink(3000, 120)
+        Budget::new(tier.pick(8_000, 300_000), tier.pick(8, 16)).min_nontrivial(tier.pick(300, 10_000)).case_timeout(300).shrink(3000, 120)
     }
     fn rule(&self) -> String {
         "generated (spsc|mpsc with 1-3 writer handles, push scripts with 0/1/20/100-row batches, rotation threshold, reader drains or leaves early, \
